@@ -17,7 +17,7 @@ def pmap(fn, jobs, workers=16, timeout=600, label=lambda j: str(j)[:80]):
         broken = []
         with cf.ProcessPoolExecutor(max_workers=min(workers, len(pending))) as ex:
             futs = {ex.submit(fn, jobs[i]): i for i in pending}
-            deadline = time.time() + timeout + 5 * len(pending) / max(1, workers)
+            deadline = time.time() + timeout + 25 * len(pending) / max(1, workers)
             try:
                 for f in cf.as_completed(futs, timeout=max(1, deadline - time.time())):
                     i = futs[f]
